@@ -23,8 +23,9 @@ PLANS = {
         "quick": [("core3", "core", 3, 9000, "simplify"), ("beta3", "beta", 3, 8000, "simplify"),
                   ("fuse3", "fuse", 3, None, "simplify"), ("expr3", "expr", 3, 4000, "simplify"),
                   ("chain1_4", "chain1", 4, 3000, "simplify"), ("fuse1_3", "fuse1", 3, 4000, "simplify_m"),
-                  ("betad3", "betad", 3, 4000, "simplify")],
+                  ("betad3", "betad", 3, 4000, "simplify"), ("corea3", "corea", 3, 4000, "simplify_fresh")],
         "thorough": [("core3", "core", 3, None, "simplify"), ("beta3", "beta", 3, None, "simplify"),
+                     ("corea3", "corea", 3, None, "simplify_fresh"), ("corea4", "corea", 4, 60000, "simplify_fresh"),
                      ("fuse4", "fuse", 4, 120000, "simplify"), ("expr3", "expr", 3, None, "simplify"),
                      ("chain4", "chain", 4, 60000, "simplify"), ("fuse1_4", "fuse1", 4, 80000, "simplify_m"),
                      ("chain1_5", "chain1", 5, 60000, "simplify"), ("betad3", "betad", 3, None, "simplify"),
@@ -34,7 +35,7 @@ PLANS = {
     "C18": {
         "quick": [("idx3", "idx", 3, 12000, "simplify"), ("core3", "core", 3, 4000, "simplify"),
                   ("beta3", "beta", 3, 3000, "simplify"), ("expr3", "expr", 3, 3000, "simplify"),
-                  ("chainx4", "chainx", 4, 8000, "simplify")],
+                  ("chainx4", "chainx", 4, 8000, "simplify"), ("corea3", "corea", 3, 3000, "simplify_fresh")],
         "thorough": [("idx3", "idx", 3, None, "simplify"), ("core3", "core", 3, None, "simplify"),
                      ("beta3", "beta", 3, None, "simplify"), ("expr3", "expr", 3, None, "simplify"),
                      ("fuse4", "fuse", 4, 60000, "simplify"), ("chainx4", "chainx", 4, None, "simplify"),
@@ -179,4 +180,8 @@ def run(prop, tier):
     rep.assumptions = ["Sem.Eval is the meaning of queries (cross-checked against CPython by the C01 check)",
                        "5 model datasets (empty, no jets, 0/1/2 jets and tracks, shifted values, all non-empty)",
                        "integer/boolean fragment; bounded budgets listed under coverage.families"]
+    if prop == "C02":
+        # the name stack the simplifier's scoping rests on: spec/CallStack.tla, design check + conformance
+        import callstack
+        callstack.component(prop, tier, rep)
     return rep.finish()
